@@ -81,6 +81,36 @@ fn parent(args: &[String]) -> i32 {
 
 fn main() {
     let args: Vec<String> = std::env::args().collect();
+    if args.len() >= 3 && args[1] == "_c14min" {
+        // development aid: minimise the byte input of a C14 replay file
+        let v: serde_json::Value = serde_json::from_str(&std::fs::read_to_string(&args[2]).unwrap()).unwrap();
+        let hex = v["case"]["bytes"].as_str().or(v["case"].as_str()).unwrap().to_string();
+        let bytes: Vec<u8> = (0..hex.len() / 2).map(|i| u8::from_str_radix(&hex[2 * i..2 * i + 2], 16).unwrap()).collect();
+        let m = vlib::props_codec::minimise_c14(&bytes);
+        println!("{} -> {} octets", bytes.len(), m.len());
+        println!("{}", m.iter().map(|b| format!("{:02x}", b)).collect::<String>());
+        if let Ok(p1) = erbium::dns::verif_parse(&m) {
+            let b2 = p1.serialise();
+            println!("re-encoded: {} octets", b2.len());
+            println!("sections of the decoded input: answer {} nameserver {} additional {}; bufsize {}", p1.answer.len(), p1.nameserver.len(), p1.additional.len(), p1.bufsize);
+            for (i, rr) in p1.answer.iter().chain(p1.nameserver.iter()).chain(p1.additional.iter()).enumerate() {
+                let d = format!("{:?}", rr);
+                println!("  rr {}: {} chars: {}", i, d.len(), &d[..d.len().min(160)]);
+            }
+            match erbium::dns::verif_parse(&b2) {
+                Ok(p2) => {
+                    let (a, b) = (format!("{:?}", p1), format!("{:?}", p2));
+                    let i = a.bytes().zip(b.bytes()).position(|(x, y)| x != y).unwrap_or(a.len().min(b.len()));
+                    let lo = i.saturating_sub(300);
+                    println!("first difference at char {} of {} / {}", i, a.len(), b.len());
+                    println!("A: {}", &a[lo..(i + 200).min(a.len())]);
+                    println!("B: {}", &b[lo..(i + 200).min(b.len())]);
+                }
+                Err(e) => println!("re-encoded message rejected: {}", e),
+            }
+        }
+        std::process::exit(0);
+    }
     if args.len() >= 4 && args[1] == "_c18child" {
         // the process that gets killed at an enumerated write (props_crashpoint.rs)
         std::process::exit(vlib::props_crashpoint::c18_child(&args[2], &args[3]));
